@@ -17,7 +17,7 @@ use crate::engine::{explore, guarded, hex, show, validate_traces, Limits, Report
 use crate::refmodel::head;
 use crate::refmodel::reqvalid::{self, ReqFacts};
 
-pub const RULE: &str = "requests: methods {GET,HEAD,POST,PUT,DELETE,OPTIONS} x versions {1.0,1.1} x original header lists of length 0..=1 (thorough 0..=2) x caller-added lists of length 0..=2 over the pool {host, content-length: 3, transfer-encoding: chunked, transfer-encoding: Chunked (mixed case), x-a: 1, x-a: 2 (repeated name), x-bin: <0x80 0xff>, cookie, connection: close} (at most one of Content-Length / Transfer-Encoding) x send-body-despite-method {no,yes}, URIs with and without path/query/port; 12 URI shapes (empty path with query, bare '?', trailing '?', '//', userinfo, upper-case host + default port, fragment, IP literal, percent-encoded delimiters, path parameters) x {GET,POST,OPTIONS} x versions x with/without caller-added Host; long requests with n added (0,1,2,59,60; thorough every n in 0..=60) and m in {0,1,5} original headers; flows at redirect depth 1..3 (states of a redirect-chain graph, with 0/1 added headers); only requests the validity model accepts; front ends Flow::<SendRequest>, Call::<WithoutBody>, Call::<WithBody>. Per request the COMPLETE graph of the writer: from every reachable state write(out) for EVERY out in 0..=|head|+1, and again in the completed state; on flows also the accessors method / uri / version / headers_map (which runs the request analysis early) as an action in every state. distinct = distinct (request, front end) graphs";
+pub const RULE: &str = "requests: methods {GET,HEAD,POST,PUT,DELETE,OPTIONS} x versions {1.0,1.1} x original header lists of length 0..=1 (thorough 0..=2) x caller-added lists of length 0..=2 over the pool {host, content-length: 3, transfer-encoding: chunked, transfer-encoding: Chunked (mixed case), x-a: 1, x-a: 2 (repeated name), x-bin: <0x80 0xff>, cookie, connection: close} (at most one of Content-Length / Transfer-Encoding) x send-body-despite-method {no,yes}, URIs with and without path/query/port; 12 URI shapes (empty path with query, bare '?', trailing '?', '//', userinfo, upper-case host + default port, fragment, IP literal, percent-encoded delimiters, path parameters) x {GET,POST,OPTIONS} x versions x with/without caller-added Host; long requests with n added (0,1,2,59,60; thorough every n in 0..=60) and m in {0,1,5} original headers; flows at redirect depth 1..3 (states of a redirect-chain graph, with 0/1 added headers); requests the validity model accepts (the rejected ones of the menu are written five times, with headers_map() in between, and must never emit a byte); front ends Flow::<SendRequest>, Call::<WithoutBody>, Call::<WithBody>. Per request the COMPLETE graph of the writer: from every reachable state write(out) for EVERY out in 0..=|head|+1, and again in the completed state; on flows also the accessors method / uri / version / headers_map (which runs the request analysis early) as an action in every state. distinct = distinct (request, front end) graphs";
 
 const URI_SHAPES: [&str; 12] = ["http://a.test?x=1", "http://a.test?", "http://a.test/p?", "http://a.test/?", "http://a.test//d", "http://u:pw@a.test/p", "http://A.TEST:80/P", "http://a.test/p#frag", "http://[::1]:8080/p", "http://a.test/%3F?%20&a=b?c", "https://a.test", "http://a.test/p;v=1/q"];
 
@@ -162,6 +162,34 @@ pub fn check_head_auth_optional(bytes: &[u8], s: &Spec, auth_optional: bool) -> 
             }
             Err(e)
         }
+    }
+}
+
+/// requests of the menu that the validity model rejects: whatever is called, no byte of a head may be emitted
+static REJECTED: std::sync::Mutex<Vec<ReqCfg>> = std::sync::Mutex::new(Vec::new());
+
+fn refused_emits_nothing(c: &ReqCfg) -> Option<String> {
+    let r = guarded(|| -> Option<String> {
+        let mut f = c.build_prepare().ok()?.proceed();
+        let mut total = 0usize;
+        for (round, size) in [4096usize, 0, 4096, 40, 4096].iter().enumerate() {
+            let mut buf = vec![0u8; *size];
+            if round == 3 {
+                let _ = f.headers_map();
+            }
+            if let Ok(n) = f.write(&mut buf) {
+                total += n;
+                if n > 0 {
+                    return Some(format!("write #{} ({}-byte buffer) of a request that must be refused emitted {} bytes: {:?}", round + 1, size, n, show(&buf[..n.min(80)])));
+                }
+            }
+        }
+        let _ = total;
+        None
+    });
+    match r {
+        Ok(x) => x,
+        Err(p) => Some(p),
     }
 }
 
@@ -378,6 +406,21 @@ fn valid(cfg: &ReqCfg, front: &str) -> bool {
     if n_te + cls.len() > 1 {
         return false; // at most one framing header is supplied (quantifier)
     }
+    verdict(cfg, front)
+}
+
+/// In the quantifier (at most one framing header) but rejected by the validity model.
+fn must_be_refused(cfg: &ReqCfg) -> bool {
+    let eff: Vec<&(String, Vec<u8>)> = cfg.added.iter().chain(cfg.orig.iter()).collect();
+    let n = eff.iter().filter(|h| h.0 == "transfer-encoding" || h.0 == "content-length").count();
+    n <= 1 && !verdict(cfg, "flow")
+}
+
+fn verdict(cfg: &ReqCfg, front: &str) -> bool {
+    let eff: Vec<&(String, Vec<u8>)> = cfg.added.iter().chain(cfg.orig.iter()).collect();
+    let hosts: Vec<&[u8]> = eff.iter().filter(|h| h.0 == "host").map(|h| &h.1[..]).collect();
+    let cls: Vec<&[u8]> = eff.iter().filter(|h| h.0 == "content-length").map(|h| &h.1[..]).collect();
+    let te = eff.iter().any(|h| h.0 == "transfer-encoding");
     reqvalid::check(&ReqFacts { version: &cfg.version, method: &cfg.method, hosts, content_lengths: cls, te_chunked: te, despite_method: cfg.despite_method, call_with_body: match front { "flow" => None, "call-with-body" => Some(true), _ => Some(false) } }).is_ok()
 }
 
@@ -413,6 +456,8 @@ fn gen_requests(tier: Tier) -> Vec<(ReqCfg, &'static str)> {
                             }
                             if valid(&c, "flow") {
                                 out.push((c.clone(), "flow"));
+                            } else if ol.len() + al.len() <= 2 && must_be_refused(&c) {
+                                REJECTED.lock().unwrap().push(c.clone());
                             }
                             if !despite && al.is_empty() {
                                 for front in ["call-without-body", "call-with-body"] {
@@ -473,7 +518,8 @@ fn redirected() -> Vec<(String, Spec, Box<dyn Fn() -> W + Send + Sync>)> {
     let locs = vec![Loc::one("/q?r=1"), Loc::one("http://b.test:8080/q/"), Loc::one("../up")];
     let mut out: Vec<(String, Spec, Box<dyn Fn() -> W + Send + Sync>)> = Vec::new();
     for (m, cl) in [("GET", false), ("POST", true), ("DELETE", false), ("HEAD", false)] {
-        let mut r = ReqCfg::new(m, "1.1", "http://a.test/d/p").orig("authorization", "S3CRET").orig("cookie", "k=ORIG").orig("x-keep", "1");
+        // (names that merely END in a suppressed name must survive a redirect)
+        let mut r = ReqCfg::new(m, "1.1", "http://a.test/d/p").orig("authorization", "S3CRET").orig("cookie", "k=ORIG").orig("x-keep", "1").orig("x-cookie", "keep").orig("x-upload-content-length", "9").orig("proxy-authorization", "P");
         if m == "HEAD" {
             r = r.orig("cookie", "k2=ORIG").orig("x-keep", "2").orig("authorization", "S3CRET-2");
         }
@@ -624,12 +670,24 @@ pub fn run(tier: Tier) -> Report {
     for p in parts {
         rep.merge(p);
     }
+    let rejected: Vec<ReqCfg> = std::mem::take(&mut *REJECTED.lock().unwrap());
+    let bad: Vec<(usize, String)> = rejected.par_iter().enumerate().filter_map(|(i, c)| refused_emits_nothing(c).map(|w| (i, w))).collect();
+    rep.evaluations += rejected.len() as u64;
+    rep.extra("refused_requests_checked", json!(rejected.len()));
+    for (i, w) in bad {
+        let c = &rejected[i];
+        rep.violation(Violation { key: "C02:refused-request-emits".into(), ord: 90_000_000 + i as u64, what: format!("{} [{} {} HTTP/{} orig {} added {} despite={}]", w, c.method, c.uri, c.version, serde_json::to_string(&c.to_json()["orig_text"]).unwrap_or_default(), serde_json::to_string(&c.to_json()["added_text"]).unwrap_or_default(), c.despite_method), replay: json!({"kind": "refused", "request": c.to_json()}) });
+    }
     rep.guard("redirected flows checked", false);
     rep.extra("requests", json!(cfgs.len()));
     rep
 }
 
 pub fn replay(v: &Value) -> Result<Option<String>, String> {
+    if v["kind"].as_str() == Some("refused") {
+        let c = ReqCfg::from_json(&v["request"])?;
+        return Ok(refused_emits_nothing(&c).map(|w| format!("[C02:refused-request-emits] {}", w)));
+    }
     let tier = if v["tier"].as_str() == Some("thorough") { Tier::Thorough } else { Tier::Quick };
     let ord = v["ord"].as_u64().ok_or("ord")? as usize;
     let cfgs = all_cfgs(tier);
